@@ -90,6 +90,13 @@ NcTwoIpCases == { Case("nc", pos - 1, [Chain(1) EXCEPT ![pos].nc = ncv, ![3].nam
                     ncv \in { [perm |-> <<Ip(V4Net, 25), Ip(Net4b, 12)>>, excl |-> <<>>], [perm |-> <<>>, excl |-> <<Ip(V4Net, 25), Ip(Net4b, 12)>>],
                               [perm |-> <<Ip(V6Net, 64), Ip(Net4b, 12)>>, excl |-> <<>>], [perm |-> <<>>, excl |-> <<Ip(V6Net, 64), Ip(Net4b, 12), Ip(V4Net, 25)>>] },
                     nm \in { Ip(<<172, 17, 1, 1>>, 32), Ip(<<172, 32, 1, 1>>, 32), Ip(V4Net, 32), Ip(<<10, 129, 3, 1>>, 32) } }
+(* lists that mix kinds of subtree (each kind constrains the names of its kind only), in either order, at root or intermediate *)
+NcMixedKindCases == { Case("nc", pos - 1, [Chain(1) EXCEPT ![pos].nc = ncv, ![3].names = <<nm>>], Now, "server") :
+                    pos \in 1..2,
+                    ncv \in { [perm |-> <<Dns(<<"example", "test">>), Ip(V4Net, 24)>>, excl |-> <<>>], [perm |-> <<Ip(V4Net, 24), Dns(<<"example", "test">>)>>, excl |-> <<>>],
+                              [perm |-> <<>>, excl |-> <<Dns(<<"bad", "example", "test">>), Ip(V4Net, 24)>>], [perm |-> <<>>, excl |-> <<Ip(V6Net, 64), Ip(V4Net, 24), Dns(<<"bad", "example", "test">>)>>],
+                              [perm |-> <<Ip(V6Net, 64), Dns(<<"example", "test">>), Ip(V4Net, 24)>>, excl |-> <<Ip(Net4b, 12), Dns(<<"bad", "example", "test">>)>>] },
+                    nm \in { Dns(<<"www", "example", "test">>), Dns(<<"bad", "example", "test">>), Dns(<<"other", "org">>), Ip(V4Net, 32), Ip(<<172, 17, 1, 1>>, 32), Ip(<<203, 0, 113, 9>>, 32), Ip(V6Net, 128) } }
 (* several names: one inside, one outside *)
 NcMixCases == { Case("nc", 0, [Chain(1) EXCEPT ![1].nc = NcOf("perm", Dns(<<"example", "test">>)), ![3].names = nms], Now, "server") :
                   nms \in { <<Dns(<<"a", "example", "test">>), Dns(<<"b", "example", "test">>)>>, <<Dns(<<"a", "example", "test">>), Dns(<<"other", "org">>)>>,
@@ -101,7 +108,7 @@ KuSets == { <<>>, <<5>>, <<6>>, <<0, 5>>, <<0>>, <<0, 6>>, <<0, 6, 6>>, <<5, 6, 
 CertSignCases == { Case("certsign", pos - 1, [Chain(n) EXCEPT ![pos].ku = k], Now, "server") : n \in 0..2, pos \in 1..3, k \in KuSets }
 
 Wf(k) == k.pos + 1 <= Len(k.chain) /\ (k.grp \in {"caflag", "pathlen", "certsign", "nc"} => k.pos + 1 < Len(k.chain))
-Cases == { k \in OkCases \cup KidCases \cup CaFlagCases \cup CaFlagBareCases \cup FarTimeCases \cup PathLenCases \cup TimeCases \cup NcDnsCases \cup NcDotCases \cup NcIp4Cases \cup NcIp6Cases \cup NcMixCases \cup NcMappedCases \cup NcTwoIpCases
+Cases == { k \in OkCases \cup KidCases \cup CaFlagCases \cup CaFlagBareCases \cup FarTimeCases \cup PathLenCases \cup TimeCases \cup NcDnsCases \cup NcDotCases \cup NcIp4Cases \cup NcIp6Cases \cup NcMixCases \cup NcMixedKindCases \cup NcMappedCases \cup NcTwoIpCases
                   \cup EkuCases \cup CertSignCases : Wf(k) }
 
 Init == c \in Cases /\ phase = "built" /\ verdict = FALSE
